@@ -464,9 +464,7 @@ func c20Settle(r *sysRun, busy bool) {
 		if simple {
 			want = want[off:]
 			if len(want) > height {
-				// more output than fits: the last row of the window is not compared (fzf leaves it blank when
-				// there is more to scroll to; an output that fits exactly is shown completely)
-				want = want[:maxInt(height-1, 0)]
+				want = want[:height]
 			}
 		}
 		for _, l := range want {
